@@ -55,7 +55,7 @@ class G:
             d = self.r.pick(["*", "_"])
             return d + G(self.r, self.depth + 1).prose_line(3) + d
         if r < 17:
-            return "`" + self.r.pick(["raw", "a  b", "x"]) + "`"
+            return "`" + self.r.pick(["raw", "a  b", "x", " ", "  ", "\t", " x ", "", "a\nb"]) + "`"
         if r < 18:
             return "\\" + self.r.pick(["\n", " "])
         if r < 19 and self.depth < 2:
@@ -86,7 +86,7 @@ class G:
             elif r < 11:
                 lines.append("#" + G(self.r, self.depth + 1).statement())
             else:
-                lines.append("```" + self.r.pick(["", "rust", "py"]) + "\n" + self.r.pick(["fn main() {}", "  x = 1\n    y", "a \nb"]) + "\n```")
+                lines.append("```" + self.r.pick(["", "rust", "py"]) + "\n" + self.r.pick(["fn main() {}", "  x = 1\n    y", "a \nb", "", " ", "\n", "  a\n\n  b", "x\n   "]) + "\n```")
         out = lines[0]
         for l in lines[1:]:
             out += self.r.pick(["\n", "\n", "\n\n", "\n\n\n", " \n", "\n  "]) + l
@@ -222,7 +222,7 @@ class G:
             return g.equation()
         if r < 29:
             return "context " + g.expr()
-        return "`raw`"
+        return self.r.pick(["`raw`", "` `", "`a b`", "```py x```"])
 
     def binary_chain(self):
         n = 2 + self.r.below(4)
